@@ -491,6 +491,10 @@ func main() {
 		{"merge.go", "", "mergeStringSliceEquivalent", true}, {"merge.go", "", "mergeTypesEqual", true}, {"merge.go", "", "mergeValuesEqual", true},
 		{"merge.go", "", "mergeArgumentListEqual", true}, {"merge.go", "", "mergeArgumentsEqual", true}, {"merge.go", "", "mergeArgumentDefinitions", true},
 		{"merge.go", "", "mergeSchemas", true},
+		// small decision functions, conditions included: the routing table (C03), the chooser (C20), the lookup by operation name (C17)
+		{"gateway.go", "", "fieldURLs", true}, {"gateway.go", "FieldURLMap", "URLFor", true}, {"gateway.go", "FieldURLMap", "Concat", true},
+		{"gateway.go", "FieldURLMap", "RegisterURL", true}, {"gateway.go", "FieldURLMap", "keyFor", true},
+		{"plan.go", "MinQueriesPlanner", "selectLocation", true}, {"plan.go", "QueryPlanList", "ForOperation", true},
 	}
 	var out strings.Builder
 	out.WriteString("(* GENERATED by /verif/translator from the working tree of nautilus/gateway; do not edit. *)\n")
